@@ -119,7 +119,8 @@ theorem tl_step (n : Nat) (h : 0 < n) : 9 + gl (min n 60) + 1 + tl (n - 60) = tl
     split <;> (try split) <;> omega
 
 theorem fmtLinesS_length (f i : Nat) (q : Bytes) (hf : q.length ≤ 60 * f)
-    (hi : q.length = 0 ∨ i + q.length < 10 ^ 9) : (fmtLinesS f i q).length = tl q.length := by
+    (hi : q.length = 0 ∨ i + q.length < 10 ^ 9 ∨ (i % 60 = 0 ∧ i + q.length ≤ 1000000020)) :
+    (fmtLinesS f i q).length = tl q.length := by
   induction f generalizing i q with
   | zero =>
     have : q = [] := List.eq_nil_of_length_eq_zero (by omega)
@@ -137,13 +138,22 @@ theorem fmtLinesS_length (f i : Nat) (q : Bytes) (hf : q.length ≤ 60 * f)
       have := tl_step q.length hpos
       omega
 
-theorem originStream_length (p : Bytes) (h : p.length < 10 ^ 9) : (originStream p).length = tl p.length := by
+/-- 1000000020 = 60 · 16666667 residues is the most the nine column index can number: the last
+line then starts at residue 999999961.  (`maxOriginResidues` of genbank_subparsers.go.) -/
+theorem originStream_length_le (p : Bytes) (h : p.length ≤ 1000000020) :
+    (originStream p).length = tl p.length := by
   rw [originStream_eq_S]
   exact fmtLinesS_length p.length 0 p (by omega) (by omega)
 
-theorem newOrigin_ok (p : Bytes) (h : p.length < 10 ^ 9) : newOrigin p = .ok (originStream p) := by
+theorem originStream_length (p : Bytes) (h : p.length < 10 ^ 9) : (originStream p).length = tl p.length :=
+  originStream_length_le p (by omega)
+
+theorem newOrigin_ok_le (p : Bytes) (h : p.length ≤ 1000000020) : newOrigin p = .ok (originStream p) := by
   unfold newOrigin
-  simp only [originStream_length p h, toOriginLength_nat, if_true]
+  simp only [originStream_length_le p h, toOriginLength_nat, if_true]
+
+theorem newOrigin_ok (p : Bytes) (h : p.length < 10 ^ 9) : newOrigin p = .ok (originStream p) :=
+  newOrigin_ok_le p (by omega)
 
 /-! ### decoding a formatted block -/
 
@@ -212,7 +222,7 @@ theorem bytesGroupsS_fmt (plen L i : Nat) (f j : Nat) (r t : Bytes) (start : Nat
 
 theorem bytesLinesS_fmt (plen L : Nat) (f f' i : Nat) (r : Bytes) (start : Nat)
     (hr : r.length = L - i) (hf : r.length ≤ 60 * f) (hf' : r.length ≤ 60 * f')
-    (hi : r.length = 0 ∨ i + r.length < 10 ^ 9)
+    (hi : r.length = 0 ∨ i + r.length < 10 ^ 9 ∨ (i % 60 = 0 ∧ i + r.length ≤ 1000000020))
     (hp : start + (fmtLinesS f' i r).length = plen) :
     bytesLinesS plen (L : Int) f i start (fmtLinesS f' i r) = .ok r := by
   induction f generalizing f' i r start with
@@ -248,9 +258,9 @@ theorem bytesLinesS_fmt (plen L : Nat) (f f' i : Nat) (r : Bytes) (start : Nat)
         simp only [Nat.reduceMul, List.take_append_drop]
 
 /-- decoding the written stream gives back the residues -/
-theorem originBytes_originStream (p : Bytes) (h : p.length < 10 ^ 9) :
+theorem originBytes_originStream_le (p : Bytes) (h : p.length ≤ 1000000020) :
     originBytes (originStream p) = .ok p := by
-  have hlen := originStream_length p h
+  have hlen := originStream_length_le p h
   unfold originBytes
   by_cases h0 : p = []
   · subst h0; rfl
@@ -265,6 +275,9 @@ theorem originBytes_originStream (p : Bytes) (h : p.length < 10 ^ 9) :
       bytesLinesS_fmt (tl p.length) p.length p.length p.length 0 p 0 (by omega) (by omega) (by omega)
         (by omega) (by rw [← originStreamS, ← originStream_eq_S, hlen]; omega)]
     simp
+
+theorem originBytes_originStream (p : Bytes) (h : p.length < 10 ^ 9) :
+    originBytes (originStream p) = .ok p := originBytes_originStream_le p (by omega)
 
 /-! ### the fast path on a formatted block -/
 
@@ -507,8 +520,8 @@ theorem splitLine_lf (ln t : Bytes) (h : noEOL ln) : splitLine (ln ++ 10 :: t) =
 
 /-! ### fast path accepted ⇒ slow path reproduces the same bytes -/
 
-theorem validateLines_slow (L f i : Nat) (rest : Bytes) (hf : L - i ≤ 60 * f) (hL : L < 10 ^ 9)
-    (h : validateLines (L : Int) f i rest = .ok ()) :
+theorem validateLines_slow_le (L f i : Nat) (rest : Bytes) (hf : L - i ≤ 60 * f)
+    (hL : L < 10 ^ 9 ∨ (L ≤ 1000000020 ∧ i % 60 = 0)) (h : validateLines (L : Int) f i rest = .ok ()) :
     ∃ blk tail, rest = blk ++ tail ∧ blk.length = tl (L - i) ∧
       (∀ tail', validateLines (L : Int) f i (blk ++ tail') = .ok ()) ∧
       ∀ cap acc, acc.length + tl (L - i) ≤ cap →
@@ -533,7 +546,7 @@ theorem validateLines_slow (L f i : Nat) (rest : Bytes) (hf : L - i ≤ 60 * f) 
           have hc10 : c = 10 := by simpa using hs
           subst hc10
           obtain ⟨ln, e1, hn, hl, hloc⟩ := walkLine_split .panic L i rest _ (by omega) hw
-          obtain ⟨blk, tail, e2, hbl, hv, hslow⟩ := ih (i + 60) r' (by omega) h
+          obtain ⟨blk, tail, e2, hbl, hv, hslow⟩ := ih (i + 60) r' (by omega) (by omega) h
           have hpos : 0 < L - i := by omega
           have hstep := tl_step (L - i) hpos
           have hsub : L - i - 60 = L - (i + 60) := by omega
@@ -563,9 +576,18 @@ theorem validateLines_slow (L f i : Nat) (rest : Bytes) (hf : L - i ≤ 60 * f) 
         fun _ => by unfold validateLines; rw [if_neg hc],
         fun cap acc _ => by unfold slowLines; rw [if_neg hc]; simp⟩
 
+theorem validateLines_slow (L f i : Nat) (rest : Bytes) (hf : L - i ≤ 60 * f) (hL : L < 10 ^ 9)
+    (h : validateLines (L : Int) f i rest = .ok ()) :
+    ∃ blk tail, rest = blk ++ tail ∧ blk.length = tl (L - i) ∧
+      (∀ tail', validateLines (L : Int) f i (blk ++ tail') = .ok ()) ∧
+      ∀ cap acc, acc.length + tl (L - i) ≤ cap →
+        slowLines (L : Int) cap f i rest acc = .ok (acc ++ blk, tail) :=
+  validateLines_slow_le L f i rest hf (Or.inl hL) h
+
 /-! ### whatever the slow path accepts, its token is a block the fast path accepts -/
 
-theorem slowLines_valid (L cap f i : Nat) (st acc out rest : Bytes) (hL : L < 10 ^ 9)
+theorem slowLines_valid_le (L cap f i : Nat) (st acc out rest : Bytes)
+    (hL : L < 10 ^ 9 ∨ (L ≤ 1000000020 ∧ i % 60 = 0))
     (h : slowLines (L : Int) cap f i st acc = .ok (out, rest)) :
     ∃ blk, out = acc ++ blk ∧ (L - i ≤ 60 * f → blk.length = tl (L - i)) ∧
       ∀ tail', validateLines (L : Int) f i (blk ++ tail') = .ok () := by
@@ -596,7 +618,7 @@ theorem slowLines_valid (L cap f i : Nat) (st acc out rest : Bytes) (hL : L < 10
           have hle : (acc ++ ln).length ≤ cap := by
             simp only [List.length_take] at hfit; omega
           rw [List.take_of_length_le hle] at h
-          obtain ⟨blk, e2, hbl, hv⟩ := ih (i + 60) st' (acc ++ ln ++ [10]) h
+          obtain ⟨blk, e2, hbl, hv⟩ := ih (i + 60) st' (acc ++ ln ++ [10]) (by omega) h
           have hpos : 0 < L - i := by omega
           have hstep := tl_step (L - i) hpos
           have hsub : L - i - 60 = L - (i + 60) := by omega
@@ -613,17 +635,23 @@ theorem slowLines_valid (L cap f i : Nat) (st acc out rest : Bytes) (hL : L < 10
       exact ⟨[], by simp, fun _ => by rw [show L - i = 0 by omega]; rfl,
         fun _ => by unfold validateLines; rw [if_neg hc]⟩
 
+theorem slowLines_valid (L cap f i : Nat) (st acc out rest : Bytes) (hL : L < 10 ^ 9)
+    (h : slowLines (L : Int) cap f i st acc = .ok (out, rest)) :
+    ∃ blk, out = acc ++ blk ∧ (L - i ≤ 60 * f → blk.length = tl (L - i)) ∧
+      ∀ tail', validateLines (L : Int) f i (blk ++ tail') = .ok () :=
+  slowLines_valid_le L cap f i st acc out rest (Or.inl hL) h
+
 /-! ### top-level statements about `validateOrigin` / `slowOrigin` -/
 
 theorem toNat_tl (L : Nat) : (toOriginLength (L : Int)).toNat = tl L := by
   rw [toOriginLength_nat]; simp
 
-theorem fast_imp_slow (b : Bytes) (L : Nat) (hL : L < 10 ^ 9)
+theorem fast_imp_slow_le (b : Bytes) (L : Nat) (hL : L ≤ 1000000020)
     (h : validateOrigin b L = .ok ()) :
     slowOrigin b L = .ok (b.take (tl L), b.drop (tl L)) := by
   unfold validateOrigin at h
   simp only [Int.toNat_natCast] at h
-  obtain ⟨blk, tail, e, hbl, _, hslow⟩ := validateLines_slow L L 0 b (by omega) hL h
+  obtain ⟨blk, tail, e, hbl, _, hslow⟩ := validateLines_slow_le L L 0 b (by omega) (Or.inr ⟨hL, rfl⟩) h
   simp only [Nat.sub_zero] at hbl hslow
   unfold slowOrigin
   simp only [toOriginLength_nat, Int.toNat_natCast]
@@ -631,7 +659,11 @@ theorem fast_imp_slow (b : Bytes) (L : Nat) (hL : L < 10 ^ 9)
   simp only [List.nil_append, hbl, Nat.sub_self, List.replicate_zero, List.append_nil]
   rw [e, List.take_left' hbl, List.drop_left' hbl]
 
-theorem slow_token_valid (st : Bytes) (L : Nat) (out rest : Bytes) (hL : L < 10 ^ 9)
+theorem fast_imp_slow (b : Bytes) (L : Nat) (hL : L < 10 ^ 9)
+    (h : validateOrigin b L = .ok ()) :
+    slowOrigin b L = .ok (b.take (tl L), b.drop (tl L)) := fast_imp_slow_le b L (by omega) h
+
+theorem slow_token_valid_le (st : Bytes) (L : Nat) (out rest : Bytes) (hL : L ≤ 1000000020)
     (h : slowOrigin st L = .ok (out, rest)) :
     out.length = tl L ∧ ∀ tail, validateOrigin (out ++ tail) L = .ok () := by
   unfold slowOrigin at h
@@ -642,7 +674,7 @@ theorem slow_token_valid (st : Bytes) (L : Nat) (out rest : Bytes) (hL : L < 10 
   | .error e, _, h => cases h
   | .ok (acc, st'), hs, h =>
     simp only [Except.ok.injEq, Prod.mk.injEq] at h
-    obtain ⟨blk, e, hbl, hv⟩ := slowLines_valid L (tl L) L 0 st [] acc st' hL hs
+    obtain ⟨blk, e, hbl, hv⟩ := slowLines_valid_le L (tl L) L 0 st [] acc st' (Or.inr ⟨hL, rfl⟩) hs
     simp only [List.nil_append, Nat.sub_zero] at e hbl
     have hlen : acc.length = tl L := by rw [e]; exact hbl (by omega)
     rw [hlen, Nat.sub_self, List.replicate_zero, List.append_nil] at h
@@ -651,6 +683,11 @@ theorem slow_token_valid (st : Bytes) (L : Nat) (out rest : Bytes) (hL : L < 10 
     unfold validateOrigin
     simp only [Int.toNat_natCast]
     rw [e]; exact hv tail
+
+theorem slow_token_valid (st : Bytes) (L : Nat) (out rest : Bytes) (hL : L < 10 ^ 9)
+    (h : slowOrigin st L = .ok (out, rest)) :
+    out.length = tl L ∧ ∀ tail, validateOrigin (out ++ tail) L = .ok () :=
+  slow_token_valid_le st L out rest (by omega) h
 
 /-! ### CRLF line ends -/
 
@@ -859,8 +896,8 @@ theorem walkLine_fail_ne_panic (length : Int) (i : Nat) (rest : Bytes) :
   · exact walkGroups_fail_ne_panic _ _ _ _ _
   · simp
 
-theorem slowLines_ne_panic (L cap f i : Nat) (st acc : Bytes) (hL : L < 10 ^ 9)
-    (hcap : acc.length + tl (L - i) ≤ cap) :
+theorem slowLines_ne_panic_le (L cap f i : Nat) (st acc : Bytes)
+    (hL : L < 10 ^ 9 ∨ (L ≤ 1000000020 ∧ i % 60 = 0)) (hcap : acc.length + tl (L - i) ≤ cap) :
     slowLines (L : Int) cap f i st acc ≠ .error .panic := by
   induction f generalizing i st acc with
   | zero => simp [slowLines]
@@ -888,19 +925,27 @@ theorem slowLines_ne_panic (L cap f i : Nat) (st acc : Bytes) (hL : L < 10 ^ 9)
           have hle : (acc ++ ln).length < cap := by
             simp only [List.length_append, hl]; omega
           rw [List.take_of_length_le (by omega), if_pos hle]
-          exact ih (i + 60) st' _ (by
+          exact ih (i + 60) st' _ (by omega) (by
             simp only [List.length_append, List.length_cons, List.length_nil, hl]; omega)
     · rw [if_neg hc]; simp
 
-theorem slowOrigin_ne_panic (st : Bytes) (L : Nat) (hL : L < 10 ^ 9) :
+theorem slowLines_ne_panic (L cap f i : Nat) (st acc : Bytes) (hL : L < 10 ^ 9)
+    (hcap : acc.length + tl (L - i) ≤ cap) :
+    slowLines (L : Int) cap f i st acc ≠ .error .panic :=
+  slowLines_ne_panic_le L cap f i st acc (Or.inl hL) hcap
+
+theorem slowOrigin_ne_panic_le (st : Bytes) (L : Nat) (hL : L ≤ 1000000020) :
     slowOrigin st L ≠ .error .panic := by
   unfold slowOrigin
   simp only [toOriginLength_nat, Int.toNat_natCast]
   rw [if_neg (by omega)]
-  have := slowLines_ne_panic L (tl L) L 0 st [] hL (by simp)
+  have := slowLines_ne_panic_le L (tl L) L 0 st [] (Or.inr ⟨hL, rfl⟩) (by simp)
   cases hs : slowLines (L : Int) (tl L) L 0 st [] with
   | error e => simp only; intro h; apply this; rw [hs]; exact h
   | ok v => obtain ⟨a, b⟩ := v; simp
+
+theorem slowOrigin_ne_panic (st : Bytes) (L : Nat) (hL : L < 10 ^ 9) :
+    slowOrigin st L ≠ .error .panic := slowOrigin_ne_panic_le st L (by omega)
 
 /-! ### trailing blanks -/
 
@@ -968,8 +1013,8 @@ theorem splitLine_cases (st : Bytes) (h : noCR st) :
   · have hn : noEOL st := fun c hc => ⟨h10 c hc, h c hc⟩
     exact Or.inr ⟨hn, splitLine_noEOL st hn⟩
 
-theorem slowLines_fast (L cap f i : Nat) (st acc out rest : Bytes) (hL : L < 10 ^ 9)
-    (hcr : noCR st) (hb : tb false st = false) (hlen : tl (L - i) ≤ st.length)
+theorem slowLines_fast_le (L cap f i : Nat) (st acc out rest : Bytes)
+    (hL : L < 10 ^ 9 ∨ (L ≤ 1000000020 ∧ i % 60 = 0)) (hcr : noCR st) (hb : tb false st = false) (hlen : tl (L - i) ≤ st.length)
     (h : slowLines (L : Int) cap f i st acc = .ok (out, rest)) :
     validateLines (L : Int) f i st = .ok () := by
   induction f generalizing i st acc with
@@ -1012,7 +1057,7 @@ theorem slowLines_fast (L cap f i : Nat) (st acc out rest : Bytes) (hL : L < 10 
           · rename_i hfit
             rw [est, hloc .panic (10 :: t)]
             simp only [bne_self_eq_false, Bool.false_eq_true, if_false]
-            refine ih (i + 60) t _ (fun c hc => hcr c (by rw [est]; simp [hc])) ?_ ?_ h
+            refine ih (i + 60) t _ (by omega) (fun c hc => hcr c (by rw [est]; simp [hc])) ?_ ?_ h
             · cases htb : tb false t with
               | false => rfl
               | true =>
@@ -1048,7 +1093,13 @@ theorem slowLines_fast (L cap f i : Nat) (st acc out rest : Bytes) (hL : L < 10 
             rw [this] at hb; cases hb
     · rw [if_neg hc]
 
-theorem slow_imp_fast (b : Bytes) (L : Nat) (o : Bytes × Bytes) (hL : L < 10 ^ 9) (hcr : noCR b)
+theorem slowLines_fast (L cap f i : Nat) (st acc out rest : Bytes) (hL : L < 10 ^ 9)
+    (hcr : noCR st) (hb : tb false st = false) (hlen : tl (L - i) ≤ st.length)
+    (h : slowLines (L : Int) cap f i st acc = .ok (out, rest)) :
+    validateLines (L : Int) f i st = .ok () :=
+  slowLines_fast_le L cap f i st acc out rest (Or.inl hL) hcr hb hlen h
+
+theorem slow_imp_fast_le (b : Bytes) (L : Nat) (o : Bytes × Bytes) (hL : L ≤ 1000000020) (hcr : noCR b)
     (hb : trailingBlank b = false) (hlen : tl L ≤ b.length)
     (h : slowOrigin b L = .ok o) : validateOrigin b L = .ok () := by
   unfold slowOrigin at h
@@ -1060,7 +1111,12 @@ theorem slow_imp_fast (b : Bytes) (L : Nat) (o : Bytes × Bytes) (hL : L < 10 ^ 
   | error e => rw [hs] at h; cases h
   | ok v =>
     obtain ⟨a, r⟩ := v
-    exact slowLines_fast L (tl L) L 0 b [] a r hL hcr hb (by simpa using hlen) hs
+    exact slowLines_fast_le L (tl L) L 0 b [] a r (Or.inr ⟨hL, rfl⟩) hcr hb (by simpa using hlen) hs
+
+theorem slow_imp_fast (b : Bytes) (L : Nat) (o : Bytes × Bytes) (hL : L < 10 ^ 9) (hcr : noCR b)
+    (hb : trailingBlank b = false) (hlen : tl L ≤ b.length)
+    (h : slowOrigin b L = .ok o) : validateOrigin b L = .ok () :=
+  slow_imp_fast_le b L o (by omega) hcr hb hlen h
 
 /-! ### a written block carries no trailing blanks -/
 
